@@ -15,6 +15,9 @@ class Family(object):
     def impl_obs(self, c):
         raise NotImplementedError
 
+    def normalize_model(self, line):
+        return line
+
     def oracle(self, c, obs):
         """Property oracles on the implementation alone: [(property_id, signature, what)]."""
         return []
